@@ -16,12 +16,13 @@ GEN = {"quick": dict(Grid1=4, MaxN1=4, Grid2=2, MaxN2=3, MaxK=3, MaxB=3, DeepN=0
                         SparseLevel=2, SparseSeedMax=24)}
 # sampling of the enumerated product (the complete sub-domain n <= FULL_N is always kept)
 FULL_N = {"quick": 2, "thorough": 3}
-SAMPLE = {"quick": {("traj", 1): 800, ("traj", 2): 800, ("restart", 1): 400, ("restart", 2): 300},
+SAMPLE = {"quick": {("traj", 1): 1000, ("traj", 2): 1000, ("restart", 1): 300, ("restart", 2): 250},
           "thorough": {("traj", 1): 6000, ("traj", 2): 6000, ("restart", 1): 2500, ("restart", 2): 2500}}
 TRACE_CONST = dict(MaxN1=0, Grid1=0, MaxN2=0, Grid2=0, MaxK=0, MaxB=0)
 LAYOUTS = ["owned", "view", "revf", "revr", "revb", "forder", "row2", "col2"]
-VARIANTS = [("f64", "l2", "owned"), ("f64", "l2", "view"), ("f64", "l2", "owned"), ("f64", "l2", "owned"),
-            ("f32", "l2", "owned"), ("f64", "l1", "owned"), ("f64", "linf", "view"), ("f32", "l1", "owned")]
+VARIANTS = [("f64", "l2", "owned"), ("f64", "l2", "view"), ("f64", "lp3", "owned"), ("f64", "l2", "owned"),
+            ("f32", "l2", "owned"), ("f64", "l1", "owned"), ("f64", "linf", "view"), ("f32", "l1", "owned"),
+            ("f64", "lp1", "owned"), ("f64", "lp2", "owned"), ("f64", "lp3", "owned"), ("f64", "l2", "owned")]
 
 
 def select(ctx, cases):
@@ -73,6 +74,8 @@ def random_cases(ctx, ntraj, nrestart):
                 c0.append(cand)
         v = r.choice(VARIANTS)
         metric = "l1" if (f == 1 and v[1] == "linf") else v[1]
+        if metric == "lp3":     # cubes of numerators over denominators up to 17^2 do not fit 32 bits
+            metric = "lp1"
         out.append({"kind": "traj", "inp": {"ft": v[0], "metric": metric, "form": r.choice(LAYOUTS), "f": f, "pts": pts, "c0": c0,
                                             "qs": queries(f, g) if f == 1 else queries(f, g)[::3],
                                             "ms": [1, 2], "nruns": r.choice([1, 2, 3]),
@@ -175,6 +178,8 @@ def run(ctx):
         "differ by >= 7e-11, far above f64 rounding (1e-14), so the float comparison agrees with the exact one unless they tie",
         "f32: distances within 2e-4 of the minimum are treated as ties",
         "restart family: clauses evaluated on the logged centroids (1e-5) with interval arithmetic; a near-tie inside the interval is a tie",
+        "Minkowski metrics LpDist(p) with p = 1, 2, 3 (f64): ordered exactly by sum |d|^p; the harness logs the p-th power "
+        "of every returned distance; lp3 treats differences below 2e-5 as ties",
         "cost monotonicity asserted for the l2 metric only; k-means|| checked with one run only (its candidate sampling is scheduled by rayon)"]
     return vlib.finish(ctx)
 
